@@ -1,7 +1,7 @@
 """C12 — formula analyses are exact (FreeVarsOracle, AtomsOracle, QuantifierOracle, TypesOracle, SizeOracle).
 
 K  the real oracles vs the Lean model `PySMT/Impl/Oracles.lean` (driver C12), results as sorted canonical lists;
-   the regenerated operator-class tables vs `pysmt.operators`; `expand_types` on explicit lists, exact order.
+   `get_types(custom_only=True)` vs `typesCustomO`; the regenerated operator-class tables vs `pysmt.operators`; `expand_types` on explicit lists, exact order.
 S  (independent of the model; also on *query histories*: several formulas sharing sub-terms on one fresh
    environment, queried in random order and mode -- the answers must not depend on what was asked before)
    * direct structural definitions, written here from the property text, of: free symbols, atoms, quantifier
@@ -38,6 +38,9 @@ RULE = ("type-directed random formulas and terms of every sort (Bool/Int/Real/BV
         "random formulas with their sub-terms) queried 2n+3 times in random order over fv / types / "
         "types(custom_only) / atoms / qf / size, every answer compared with the structural definition.")
 ASSUMPTIONS = [
+    "a bare function-typed symbol used as a term (Symbol('f', FunctionType(..)) itself) is outside the Lean model "
+    "(Core typeOf gives it no sort, so no theorem speaks about it); the real oracles are still checked on such "
+    "symbols against the structural definitions (S only)",
     "hash-consing (C04): distinct FNode objects are distinct structures, so DAG measures count objects",
     "interpretations sampled, not enumerated: the semantic dependence tests are one-sided (they can only refute)",
     "interpretations under which a division by zero is evaluated are skipped in the semantic tests",
@@ -562,8 +565,9 @@ def process(ctx, env, uni, cases, do_k=True):
                     "atoms": (akind, None if atoms is None else sorted(set(wire.enc_term(a) for a in atoms))),
                     "qf": "true" if qf else "false",
                     "types": sorted(set(wire.enc_type(t) for t in tys)),
+                    "ctypes": [wire.enc_type(t) for t in tys_custom],
                 }
-                for req in ("fvo", "atoms", "qf", "types"):
+                for req in ("fvo", "atoms", "qf", "types", "ctypes"):
                     k_lines.append("%s %s" % (req, c.line))
                     k_meta.append((c, req, want[req], rep0))
                 for m in MEASURES:
@@ -660,6 +664,11 @@ def process(ctx, env, uni, cases, do_k=True):
                         ok = ans == kind
                     else:
                         ok = ans.startswith("atoms") and canon_items(ans[5:]) == lst
+                elif req == "ctypes":
+                    # exact order among the declared sorts is not comparable (set iteration order of the walk):
+                    # compared as a set, no duplicates
+                    have = [x.strip() for x in ans.split(" ; ")] if ans.strip() else []
+                    ok = sorted(have) == sorted(want) and len(set(want)) == len(want)
                 elif req in ("fvo", "types"):
                     ok = canon_items(ans) == want
                 else:
@@ -800,6 +809,12 @@ def parametric_cases(ctx, env, n):
                 fs = sym("pf", FunctionType(BOOL, [t]))
                 parts.append(m.Function(fs, [a]))
         out.append(Case(m.And(parts) if len(parts) > 1 else parts[0], r.getrandbits(48), wire_ok=False))
+    # bare function symbols: outside the Lean model's terms (Core typeOf gives them no sort), S only
+    for k, t in names:
+        if t.is_function_type():
+            out.append(Case(names[(k, t)], ctx.rng.getrandbits(48), wire_ok=False))
+    for ft in (FunctionType(INT, [INT]), FunctionType(BOOL, [ArrayType(INT, V0), BVType(3)])):
+        out.append(Case(sym("bf", ft), ctx.rng.getrandbits(48), wire_ok=False))
     return out
 
 
